@@ -166,6 +166,15 @@ theorem C16_freeze_makes_unavailable :
     step (tableOf "service") "available" "pause" "available" = some "pause" ∧ isAvailable "service" "pause" = false ∧
     isAvailable "service" "forbidden" = false := by decide +kernel
 
+/-- table fact: **a rejection never makes an object usable that was not usable when the operation was proposed**: every
+`reject` transition of appchains, services, roles and nodes either returns to the remembered previous status (`<last>`),
+or ends in a status that is not an available one, or starts only from statuses that are available ones themselves -/
+theorem C16_reject_never_makes_available :
+    (["appchain", "service", "role", "node"].all fun o =>
+      ((tableOf o).filter (fun e => e.1 == "reject")).all fun e =>
+        e.2.2 == "<last>" || !isAvailable o e.2.2 || e.2.1.all (isAvailable o)) = true := by
+  decide +kernel
+
 /-- non-vacuity: the tables are there and a registration is approved into `available` -/
 example : (tableOf "service").length > 10 ∧ step (tableOf "service") "registering" "approve" "unavailable" = some "available" ∧
     isAvailable "service" "available" = true := by decide +kernel
